@@ -39,21 +39,36 @@ def diff_chooser(ref_ch):
 def run_world(full, entry, ch):
     """One call in a fresh World.  With ``real_executor`` real time is the one thing the harness
     does not own: an execution in which it ran away (an attempt that does not overrun in the model
-    was timed out by a loaded machine, or a parked thread was lost) is repeated, and given up as
-    inconclusive - never judged - after three repeats.  Returns (world, judge?)."""
-    w = seq.World(full, ch)
-    w.call(entry)
+    was timed out by a stalled machine, a parked thread was lost, or the run therefore asked
+    different questions than the replayed prefix) is repeated with the same choices, and given up
+    as inconclusive - never judged, never an error - after four repeats.  Returns (world, judge?)."""
     if not full["real_executor"]:
+        w = seq.World(full, ch)
+        w.call(entry)
         return w, True
-    for _ in range(3):
+
+    def once(c):
+        w = seq.World(full, c)
+        try:
+            w.call(entry)
+        except ReplayMismatch:
+            w.inconclusive = True
+            try:
+                w._release("end")
+            except Exception:  # noqa: BLE001
+                pass
+        return w
+
+    w = once(ch)
+    for _ in range(4):
         if not w.inconclusive:
             return w, True
         ch2 = Chooser(ch.prefix, ch.meta)
-        w = seq.World(full, ch2)
-        w.call(entry)
+        w = once(ch2)
         ch.pos, ch.log = ch2.pos, ch2.log
     if w.inconclusive:
         w.trace.append(("inconclusive",))
+        ch.pos = max(ch.pos, len(ch.prefix))   # the subtree below this prefix is given up
         return w, False
     return w, True
 
